@@ -7,6 +7,7 @@ package ctfe
 // fork (that is what the code under test does).  Keys are generated once per process.
 
 import (
+	"bytes"
 	"crypto"
 	"crypto/ecdsa"
 	"crypto/elliptic"
@@ -75,6 +76,10 @@ const (
 	vPoisonBadValue
 	vPoisonNonCriticalBad
 	vPoisonEmpty
+	vPoisonLenContent  // NULL tag with a non-empty body: 05 03 de ad 42
+	vPoisonConstructed // constructed NULL: 25 00
+	vPoisonLongLen     // non-minimal length: 05 81 00
+	vPoisonKinds
 )
 
 const (
@@ -151,6 +156,12 @@ func vIssue(s vSpec) *vCert {
 		tmpl.ExtraExtensions = append(tmpl.ExtraExtensions, pkix.Extension{Id: vOIDPoison, Critical: false, Value: []byte{4, 0}})
 	case vPoisonEmpty:
 		tmpl.ExtraExtensions = append(tmpl.ExtraExtensions, pkix.Extension{Id: vOIDPoison, Critical: true, Value: []byte{}})
+	case vPoisonLenContent:
+		tmpl.ExtraExtensions = append(tmpl.ExtraExtensions, pkix.Extension{Id: vOIDPoison, Critical: true, Value: []byte{5, 3, 0xde, 0xad, 0x42}})
+	case vPoisonConstructed:
+		tmpl.ExtraExtensions = append(tmpl.ExtraExtensions, pkix.Extension{Id: vOIDPoison, Critical: true, Value: []byte{0x25, 0}})
+	case vPoisonLongLen:
+		tmpl.ExtraExtensions = append(tmpl.ExtraExtensions, pkix.Extension{Id: vOIDPoison, Critical: true, Value: []byte{5, 0x81, 0}})
 	}
 	if s.customExt {
 		tmpl.ExtraExtensions = append(tmpl.ExtraExtensions, pkix.Extension{Id: vOIDCustom, Critical: false, Value: []byte{4, 1, 7}})
@@ -333,4 +344,176 @@ func vForge(r *verifkit.Rand, of *vCert) *vCert {
 	c := vIssue(sp)
 	c.label = of.label + " forged"
 	return c
+}
+
+// ---------------------------------------------------------------------------------- DER splicing of issued certificates
+//
+// Certificates the standard library would never emit: extensions in another order, a SubjectPublicKeyInfo in a
+// non-canonical (but accepted) encoding.  The TBSCertificate is rebuilt field by field with the harness' own TLV
+// walker (c01Read / c01Wrap) and signed again with the issuer's key.
+
+// vResign signs newTBS with the key that signed c (the algorithm stays the one named in the certificate).
+func vResign(c *vCert, newTBS []byte) *vCert {
+	outer, _, ok := c01Read(c.der)
+	if !ok {
+		panic("vResign: outer")
+	}
+	parts, ok := c01Children(outer.val)
+	if !ok || len(parts) != 3 {
+		panic("vResign: parts")
+	}
+	signer := c.key.priv
+	if c.issuer != nil {
+		signer = c.issuer.key.priv
+	}
+	if c.spec.signKey != nil {
+		signer = c.spec.signKey.priv
+	}
+	alg := parts[1].full
+	var h crypto.Hash
+	switch {
+	case bytes.Contains(alg, []byte{0x2a, 0x86, 0x48, 0x86, 0xf7, 0x0d, 0x01, 0x01, 0x0b}), bytes.Contains(alg, []byte{0x2a, 0x86, 0x48, 0xce, 0x3d, 0x04, 0x03, 0x02}):
+		h = crypto.SHA256
+	case bytes.Contains(alg, []byte{0x2a, 0x86, 0x48, 0xce, 0x3d, 0x04, 0x03, 0x03}):
+		h = crypto.SHA384
+	case bytes.Contains(alg, []byte{0x2a, 0x86, 0x48, 0xce, 0x3d, 0x04, 0x03, 0x04}):
+		h = crypto.SHA512
+	default:
+		panic("vResign: signature algorithm")
+	}
+	hh := h.New()
+	hh.Write(newTBS)
+	sig, err := signer.Sign(rand.Reader, hh.Sum(nil), h)
+	if err != nil {
+		panic(err)
+	}
+	der := c01Wrap(0x30, append(append(append([]byte{}, newTBS...), alg...), c01Wrap(0x03, append([]byte{0}, sig...))...))
+	pc, err := x509.ParseCertificate(der)
+	if x509.IsFatal(err) || pc == nil {
+		panic(fmt.Sprintf("verif pki: fork cannot parse spliced certificate %s: %v", c.label, err))
+	}
+	return &vCert{der: der, c: pc, key: c.key, issuer: c.issuer, label: c.label, spec: c.spec}
+}
+
+// vTBSFields returns the fields of c's TBSCertificate.
+func vTBSFields(c *vCert) []c01TLV {
+	outer, _, ok := c01Read(c.der)
+	if !ok {
+		panic("vTBSFields")
+	}
+	parts, _ := c01Children(outer.val)
+	fields, ok := c01Children(parts[0].val)
+	if !ok {
+		panic("vTBSFields: fields")
+	}
+	return fields
+}
+
+func vJoin(ts []c01TLV) []byte {
+	var b []byte
+	for _, t := range ts {
+		b = append(b, t.full...)
+	}
+	return b
+}
+
+// vReorderExts re-issues c with its extensions arranged by f (same extensions, same bytes each).
+func vReorderExts(c *vCert, f func([]c01TLV) []c01TLV) *vCert {
+	fields := vTBSFields(c)
+	for i, fl := range fields {
+		if fl.tag != 0xa3 {
+			continue
+		}
+		seq, _, ok := c01Read(fl.val)
+		if !ok {
+			panic("vReorderExts")
+		}
+		exts, _ := c01Children(seq.val)
+		fields[i] = c01TLV{full: c01Wrap(0xa3, c01Wrap(0x30, vJoin(f(exts))))}
+	}
+	return vResign(c, c01Wrap(0x30, vJoin(fields)))
+}
+
+// vExtIs reports whether the extension TLV carries the given OID TLV.
+func vExtIs(e c01TLV, oid []byte) bool {
+	parts, ok := c01Children(e.val)
+	return ok && len(parts) >= 2 && bytes.Equal(parts[0].full, oid)
+}
+
+// vPlaceExts arranges the extensions so that the poison sits at position `poisonAt` among the others and the AKI
+// (if present) at `akiAt` (-1: leave it where it is; -2: remove it; a large value: last).
+func vPlaceExts(c *vCert, poisonAt, akiAt int) *vCert {
+	return vReorderExts(c, func(exts []c01TLV) []c01TLV {
+		var poison, aki *c01TLV
+		var rest []c01TLV
+		for i := range exts {
+			switch {
+			case vExtIs(exts[i], c01OIDPoison):
+				poison = &exts[i]
+			case vExtIs(exts[i], c01OIDAKI) && akiAt != -1:
+				aki = &exts[i]
+			default:
+				rest = append(rest, exts[i])
+			}
+		}
+		ins := func(l []c01TLV, at int, e c01TLV) []c01TLV {
+			if at > len(l) {
+				at = len(l)
+			}
+			if at < 0 {
+				at = 0
+			}
+			return append(l[:at:at], append([]c01TLV{e}, l[at:]...)...)
+		}
+		if aki != nil && akiAt != -2 {
+			rest = ins(rest, akiAt, *aki)
+		}
+		if poison != nil {
+			rest = ins(rest, poisonAt, *poison)
+		}
+		return rest
+	})
+}
+
+// vDropSPKINull re-issues an RSA-keyed certificate whose SubjectPublicKeyInfo algorithm is SEQUENCE{rsaEncryption}
+// without the NULL parameters (not what any encoder emits, but accepted by the lenient parser).
+func vDropSPKINull(c *vCert) *vCert {
+	fields := vTBSFields(c)
+	at := 5
+	if fields[0].tag == 0xa0 {
+		at = 6
+	}
+	spki, ok := c01Children(fields[at].val)
+	if !ok || len(spki) != 2 {
+		panic("vDropSPKINull: spki")
+	}
+	alg, ok := c01Children(spki[0].val)
+	if !ok || len(alg) != 2 || alg[1].tag != 0x05 {
+		panic("vDropSPKINull: not an RSA key with NULL parameters")
+	}
+	fields[at] = c01TLV{full: c01Wrap(0x30, append(c01Wrap(0x30, alg[0].full), spki[1].full...))}
+	n := vResign(c, c01Wrap(0x30, vJoin(fields)))
+	n.label = c.label + " (SPKI without NULL)"
+	return n
+}
+
+// vAddSPKINull re-issues a certificate whose key algorithm has no parameters (Ed25519) with explicit NULL parameters.
+func vAddSPKINull(c *vCert) *vCert {
+	fields := vTBSFields(c)
+	at := 5
+	if fields[0].tag == 0xa0 {
+		at = 6
+	}
+	spki, ok := c01Children(fields[at].val)
+	if !ok || len(spki) != 2 {
+		panic("vAddSPKINull: spki")
+	}
+	alg, ok := c01Children(spki[0].val)
+	if !ok || len(alg) != 1 {
+		panic("vAddSPKINull: algorithm already has parameters")
+	}
+	fields[at] = c01TLV{full: c01Wrap(0x30, append(c01Wrap(0x30, append(append([]byte{}, alg[0].full...), 0x05, 0x00)), spki[1].full...))}
+	n := vResign(c, c01Wrap(0x30, vJoin(fields)))
+	n.label = c.label + " (SPKI with explicit NULL)"
+	return n
 }
